@@ -572,7 +572,11 @@ func fedqGen(r *Rng, i int) *Sx {
 	}
 	genMsg := func() {
 		tag++
-		add(L(A("msg"), sxMsg(fedGenMsg(r, tag, Pick(r, []string{"a", "a/b", "$s/x"}), r.Chance(1, 5), bad && r.Chance(1, 6)))))
+		gm := fedGenMsg(r, tag, Pick(r, []string{"a", "a/b", "$s/x"}), r.Chance(1, 5), bad && r.Chance(1, 6))
+		if gm.Retained && r.Chance(1, 4) { // clears the receiver's retained message of the topic
+			gm.Payload = nil
+		}
+		add(L(A("msg"), sxMsg(gm)))
 	}
 	// prologue
 	for k := 0; k < Pick(r, []int{0, 0, 1, 3}); k++ {
